@@ -1,5 +1,7 @@
 import GoLevel.Proofs.WriteProtoTerm
 import GoLevel.Proofs.WriteProtoExec
+import GoLevel.Proofs.WriteProtoGInv5
+import GoLevel.Proofs.WriteProtoDriver
 /-!
 # Property C10 — the write-merge protocol
 
@@ -26,6 +28,14 @@ writer `w` was merged into group `j`.
 Remark (found while modelling, not a defect of the protocol): when `rotateMem` fails after `addSeq`, the
 whole group gets an error although its writes are durable and visible (`Out`: `r = err` does not imply
 `jout = some false`).
+
+Sections 7–12 (wp34) are about what a group *carries*: every call has records, a size, a Sync flag and is a
+`Write(batch)` or a `Put`/`Delete`; the leader's record holds the locals of `writeLocked` (`batches`,
+`ourBatch` and its contents, `sync`, `mergeLimit`, `mdbFree`) and the list `members` of the `writeMerge`
+messages it accepted.  `St.cfg : Cfg` has one flag per place where the code has been seen to go wrong
+(seeded changes); the theorems are for the flags set to `true`, `code_cfg` says that this is what the source
+does (facts read off the Go AST by `tools/extract`), and for each flag set to `false` there is an explicit
+run (`seeded_…`) that violates the corresponding theorem.
 -/
 namespace GoLevel.C10
 
@@ -37,13 +47,20 @@ Three merging writers.  Writer 0 takes the lock, merges writer 1, writer 2 is to
 journal write fails: 0 and 1 get the error, the lock is handed to 2, which writes alone (with a memdb
 rotation) and releases the lock. -/
 
-def ex0 : St := { ws := [{ size := 2 }, { size := 1, sync := true }, { size := 5, nrec := 3 }], seq := 7 }
+/-- a writer call: `Put`/`Delete` or `Write(batch)`, `internalLen`, the records, Sync -/
+def mkW (put : Bool) (size : Nat) (recs : List Rec) (sync : Bool := false) : Thread :=
+  { put := put, size := size, recs := recs, cb := recs, sync := sync }
 
+/-- writer 0: `Write` of records 10, 11; writer 1: a `Put` of record 20 with Sync; writer 2: `Write` of 30, 31, 32 -/
+def ex0 : St := { ws := [mkW false 2 [10, 11], mkW true 1 [20] true, mkW false 5 [30, 31, 32]], seq := 7 }
+
+/-- `mdbFree = 5`: the merge limit is `min (128 KiB) (5 - 2) = 3` -/
 def exTraceA : List Label :=
-  [.call 0, .call 1, .call 2, .lock 0, .flushOk 0 3, .recvAccept 1 0, .reply 1 0, .recvOverflow 2 0, .journalFail 0]
+  [.call 0, .call 1, .call 2, .lock 0, .flushOk 0 5, .recvAccept 1 0, .reply 1 0, .recvOverflow 2 0, .journalFail 0]
 
+/-- `mdbFree = 5 = batch.internalLen`: no merging, and the memdb is rotated after the write -/
 def exTraceB : List Label :=
-  [.ack 1 0, .handoff 2 0, .flushOk 2 10, .mergeDone 2, .journalOk 2, .apply 2, .publish 2 true, .rotateOk 2,
+  [.ack 1 0, .handoff 2 0, .flushOk 2 5, .mergeDone 2, .journalOk 2, .apply 2, .publish 2 true, .rotateOk 2,
    .release 2]
 
 /-- after the journal failure: 0 is in `unlockWrite` owing one ack, 1 waits for it, 2 waits for the lock -/
@@ -54,10 +71,10 @@ theorem exMid_run : run ex0 exTraceA = some exMid := by decide
 theorem exEnd_run : run exMid exTraceB = some exEnd := by decide
 
 theorem ex0_init : Init ex0 := by
-  refine ⟨rfl, rfl, ?_⟩
+  refine ⟨rfl, rfl, rfl, ?_⟩
   intro w hw
   simp only [ex0, List.mem_cons, List.not_mem_nil, or_false] at hw
-  rcases hw with rfl | rfl | rfl <;> simp [Thread.fresh]
+  rcases hw with rfl | rfl | rfl <;> simp [Thread.fresh, mkW]
 
 theorem exMid_reachable : Reachable exMid := ⟨ex0, ex0_init, run_sound _ _ _ exMid_run⟩
 theorem exEnd_reachable : Reachable exEnd :=
@@ -65,7 +82,7 @@ theorem exEnd_reachable : Reachable exEnd :=
 
 example : exMid.ws.map (·.pc) = [.lead (.acking 1 .err) 1 true, .waitAck, .waitMerged] := by decide
 example : exEnd.ws.map (·.pc) = [.returned .err, .returned .err, .returned .ok] ∧ exEnd.token = false
-    ∧ exEnd.seq = 10 := by decide
+    ∧ exEnd.seq = 13 := by decide
 
 /-! ## 1. mutual exclusion -/
 
@@ -125,8 +142,9 @@ theorem leader_result (s : St) (hr : Reachable s) (j : Nat) (l : Thread) (r r' :
 
 example : ∃ l, exEnd.ws[0]? = some l ∧ l.gres = some .err ∧ l.jout = some false ∧ l.pub = none ∧
     ∃ w, exEnd.ws[1]? = some w ∧ w.acc = some 0 ∧ w.pc = .returned .err := by decide
-example : ∃ l, exEnd.ws[2]? = some l ∧ l.gres = some .ok ∧ l.jout = some true ∧ l.pub = some 10 ∧
-    l.gseq = 8 ∧ l.gn = 3 := by decide
+/-- the failed group consumed the sequence numbers 8, 9, 10 (`addSeq` on the journal-error path) -/
+example : ∃ l, exEnd.ws[2]? = some l ∧ l.gres = some .ok ∧ l.jout = some true ∧ l.pub = some 13 ∧
+    l.gseq = 11 ∧ l.gn = 3 := by decide
 
 /-! ## 3. nobody is answered twice, nobody is dropped -/
 
@@ -210,9 +228,391 @@ theorem terminates :
 
 example : measure ex0 = 42 ∧ measure exMid = 13 ∧ measure exEnd = 0 := by decide
 
+/-! ## 7. the configuration of the source
+
+`tools/extract` reads off `db_write.go`: `sync = sync || incoming.sync` is a statement of the body of
+`case incoming := <-db.writeMergeC` outside both branches; `ourBatch.Reset()` follows
+`ourBatch = db.batchPool.Get().(*Batch)`; the merged record is appended with `ourBatch.appendRec`;
+`unlockWrite` tests `if overflow {` and nothing else.  Each fact flips on the patch of the corresponding
+seeded change, and `code_cfg` stops building. -/
+
+theorem code_cfg : Cfg.code = {} := by decide
+
+/-- the limit arithmetic of `writeLocked` has the shape `mergeLimitOf` transcribes -/
+theorem code_merge_limit_shape : Gen.wpMergeLimitShape = true := by decide
+
+theorem code_flags (s : St) (h : s.cfg = Cfg.code) :
+    s.cfg.syncAll = true ∧ s.cfg.poolReset = true ∧ s.cfg.appendOur = true ∧ s.cfg.handoffOnErr = true := by
+  rw [h, code_cfg]; decide
+
+/-! A run with a full group: writer 0 (`Write` of 10, 11) leads and merges writer 1 (a `Put` of 20 with Sync:
+it goes to the pooled batch) and then writer 2 (`Write` of 30, 31, 32: its batch is appended to `batches`). -/
+
+def exTraceG : List Label :=
+  [.call 0, .call 1, .call 2, .lock 0, .flushOk 0 100, .recvAccept 1 0, .reply 1 0, .recvAccept 2 0, .reply 2 0,
+   .mergeDone 0, .journalOk 0, .apply 0, .publish 0 false, .ack 1 0, .ack 2 0, .release 0]
+
+def exG : St := (run ex0 exTraceG).getD ex0
+theorem exG_run : run ex0 exTraceG = some exG := by decide
+theorem exG_reachable : Reachable exG := ⟨ex0, ex0_init, run_sound _ _ _ exG_run⟩
+
+example : exG.ws.map (·.pc) = [.returned .ok, .returned .ok, .returned .ok] ∧ exG.seq = 13 ∧
+    exG.pool = [[20]] := by decide
+
+theorem jout_of_gres_ok (l : Thread) (hL : Loc l) (h : l.gres = some .ok) : l.jout = some true ∧ l.pub ≠ none := by
+  revert hL; unfold Loc
+  split <;> simp_all [Blank, Out]
+
+/-! ## 8. Sync through the merge (C04) -/
+
+/-- The journal write of a group is synced iff its leader or one of the merged writers asked for Sync
+(`jsync` is the `sync` argument of `db.writeJournal`); the list `members` is the set of writers merged into
+the group, with their flags; hence a merged writer that asked for Sync and was answered `nil` was journalled
+with Sync, and so was a leader that asked for it. -/
+theorem group_sync (s : St) (hr : Reachable s) (hc : s.cfg.syncAll = true) (j : Nat) (l : Thread)
+    (hj : s.ws[j]? = some l) :
+    (l.jout ≠ none → l.jsync = some (l.sync || l.members.any (·.sync))) ∧
+    (∀ e ∈ l.members, ∃ w, s.ws[e.idx]? = some w ∧ w.kind = .writer ∧ w.sync = e.sync ∧
+        (w.acc = some j ∨ w.pc = .waitMerged)) ∧
+    (∀ (i : Nat) (w : Thread), s.ws[i]? = some w → w.acc = some j →
+        ∃ e ∈ l.members, e.idx = i ∧ e.sync = w.sync) ∧
+    (∀ (i : Nat) (w : Thread), s.ws[i]? = some w → w.acc = some j → w.sync = true → w.pc = .returned .ok →
+        l.jout = some true ∧ l.jsync = some true) ∧
+    (l.gres = some .ok → l.sync = true → l.jout = some true ∧ l.jsync = some true) := by
+  have p := reachable_pinv s hr
+  have g := reachable_ginv s hr
+  have hL := p.loc j l hj
+  have hG := g.gloc j l hj
+  have ha : l.jout ≠ none → l.jsync = some (l.sync || l.members.any (·.sync)) := by
+    intro hjo
+    obtain ⟨hS, _, _, hjs, _⟩ := shape_of_jout _ l hL hG hjo
+    rw [hjs, hS.2.2.2.1 hc]; rfl
+  have hmem : ∀ (i : Nat) (w : Thread), s.ws[i]? = some w → w.acc = some j → memOf i w ∈ l.members := by
+    intro i w hi hacc
+    obtain ⟨l', hj', hm⟩ := g.am i w j hi hacc
+    rw [hj] at hj'; cases hj'; exact hm
+  refine ⟨ha, ?_, ?_, ?_, ?_⟩
+  · intro e he
+    obtain ⟨w, hw, hm, hk, _, _⟩ := g.tie j l e hj he
+    refine ⟨w, hw, hk, by rw [← hm]; rfl, ?_⟩
+    rcases g.macc j l e w hj he hw with h | h
+    · exact Or.inl h
+    · exact Or.inr h.1
+  · intro i w hi hacc
+    exact ⟨memOf i w, hmem i w hi hacc, rfl, rfl⟩
+  · intro i w hi hacc hs hp
+    obtain ⟨l', hj', hres⟩ := p.member i w j hi hacc
+    rw [hj] at hj'; cases hj'
+    have hjo := jout_of_gres_ok l hL (hres _ hp)
+    refine ⟨hjo.1, ?_⟩
+    rw [ha (by rw [hjo.1]; simp)]
+    have : l.members.any (·.sync) = true :=
+      List.any_eq_true.mpr ⟨memOf i w, hmem i w hi hacc, hs⟩
+    rw [this, Bool.or_true]
+  · intro hgr hs
+    have hjo := jout_of_gres_ok l hL hgr
+    refine ⟨hjo.1, ?_⟩
+    rw [ha (by rw [hjo.1]; simp), hs, Bool.true_or]
+
+theorem code_group_sync (s : St) (hr : Reachable s) (hcode : s.cfg = Cfg.code) (i j : Nat) (w l : Thread)
+    (hi : s.ws[i]? = some w) (hj : s.ws[j]? = some l) (hacc : w.acc = some j) (hs : w.sync = true)
+    (hp : w.pc = .returned .ok) : l.jout = some true ∧ l.jsync = some true :=
+  (group_sync s hr (code_flags s hcode).1 j l hj).2.2.2.1 i w hi hacc hs hp
+
+/-- the group of `exG` was synced because of the merged `Put` -/
+example : ∃ l, exG.ws[0]? = some l ∧ l.sync = false ∧ l.jsync = some true ∧ l.members.map (·.sync) = [true, false] := by
+  decide
+
+/-- seeded change "the leader drops the Sync flag of a merged Put" (`syncAll = false`): writer 1, a `Put`
+with Sync, is merged into the group of writer 0 and answered `nil`; the group was journalled without Sync -/
+def m1Init : St := { ws := [mkW false 2 [10], mkW true 1 [20] true], cfg := { syncAll := false } }
+def m1Trace : List Label :=
+  [.call 0, .call 1, .lock 0, .flushOk 0 100, .recvAccept 1 0, .reply 1 0, .mergeDone 0, .journalOk 0, .apply 0,
+   .publish 0 false, .ack 1 0, .release 0]
+def m1End : St := (run m1Init m1Trace).getD m1Init
+
+theorem m1_reachable : Reachable m1End := by
+  refine ⟨m1Init, ⟨rfl, rfl, rfl, ?_⟩, run_sound _ _ _ (by decide : run m1Init m1Trace = some m1End)⟩
+  intro w hw
+  simp only [m1Init, List.mem_cons, List.not_mem_nil, or_false] at hw
+  rcases hw with rfl | rfl <;> simp [Thread.fresh, mkW]
+
+theorem seeded_sync_dropped : Reachable m1End ∧ m1End.cfg = { syncAll := false } ∧
+    m1End.ws.map (fun w => (w.pc, w.acc, w.sync, w.jout, w.jsync)) =
+      [(.returned .ok, none, false, some true, some false), (.returned .ok, some 0, true, none, none)] :=
+  ⟨m1_reachable, by decide, by decide⟩
+
+/-! ## 9. the records of a group (C10, C20) -/
+
+/-- Once `db.writeJournal` has been called for the group led by `j`: the records written — and, once
+published, the records put into the memdb — are `expect`: the leader's `batch` (for a `Put` leader: its
+record followed by the merged `Put`s), then in arrival order the merged batches, the pooled batch (all merged
+`Put`s) standing where the first `Put` arrived.  That is a permutation of the leader's records followed by
+every merged call's records; the leader's come first; each call's records appear in the call's own order;
+their number is the number `gn` of sequence numbers the group consumes (`pub + 1 = gseq + gn`); and
+`members` is exactly the set of merged writers: distinct threads, each a writer whose `acc` is `j` (or who
+still waits for the reply), and every writer with `acc = some j` is in it. -/
+theorem group_records_exact (s : St) (hr : Reachable s) (h1 : s.cfg.poolReset = true)
+    (h2 : s.cfg.appendOur = true) (j : Nat) (l : Thread) (hj : s.ws[j]? = some l) (hjo : l.jout ≠ none) :
+    l.jrecs = expect l.put l.recs l.members ∧
+    (l.pub ≠ none → l.arecs = l.jrecs) ∧
+    l.jrecs.Perm (l.recs ++ l.members.flatMap (·.recs)) ∧
+    l.recs <+: l.jrecs ∧
+    (∀ e ∈ l.members, e.recs.Sublist l.jrecs) ∧
+    l.gn = l.jrecs.length ∧ l.gn = l.recs.length + (l.members.map (·.recs.length)).sum ∧
+    (∀ p, l.pub = some p → p + 1 = l.gseq + l.gn) ∧
+    (l.members.map (·.idx)).Nodup ∧
+    (∀ e ∈ l.members, ∃ w, s.ws[e.idx]? = some w ∧ memOf e.idx w = e ∧ w.kind = .writer ∧
+        (w.acc = some j ∨ w.pc = .waitMerged)) ∧
+    (∀ (i : Nat) (w : Thread), s.ws[i]? = some w → w.acc = some j → memOf i w ∈ l.members) := by
+  have p := reachable_pinv s hr
+  have g := reachable_ginv s hr
+  obtain ⟨hS, hgn, hjr, _, har⟩ := shape_of_jout _ l (p.loc j l hj) (g.gloc j l hj) hjo
+  have hfl := flat_expect _ l hS h1 h2
+  have hjr' : l.jrecs = expect l.put l.recs l.members := by rw [hjr, hfl]
+  refine ⟨hjr', ?_, ?_, ?_, ?_, ?_, ?_, ?_, g.nd j l hj, ?_, ?_⟩
+  · intro hp; rw [har hp, hjr]
+  · rw [hjr']; exact expect_perm _ _ _
+  · rw [hjr']; exact expect_prefix _ _ _
+  · intro e he; rw [hjr']; exact expect_member_sublist _ _ _ e he
+  · rw [hgn, hjr]
+  · rw [hgn, hfl]; exact expect_length _ _ _
+  · intro q hq; exact g.pe j l q hj hq
+  · intro e he
+    obtain ⟨w, hw, hm, hk, _, _⟩ := g.tie j l e hj he
+    refine ⟨w, hw, hm, hk, ?_⟩
+    rcases g.macc j l e w hj he hw with h | h
+    · exact Or.inl h
+    · exact Or.inr h.1
+  · intro i w hi hacc
+    obtain ⟨l', hj', hm⟩ := g.am i w j hi hacc
+    rw [hj] at hj'; cases hj'; exact hm
+
+/-- only the leader's `db.addSeq` moves `db.seq`, and by the group's record count -/
+theorem seq_consumed (s t : St) (h : Step s t) (hne : t.seq ≠ s.seq) :
+    ∃ (j : Nat) (l : Thread) (m : Nat) (o : Bool), s.ws[j]? = some l ∧
+      (l.pc = .lead .publish m o ∨ l.pc = .lead .journal m o) ∧ t.seq = s.seq + l.gn := by
+  cases h with
+  | publish j l m o rot hj hp hrot => exact ⟨j, l, m, o, hj, Or.inl hp, rfl⟩
+  | journalFail j l m o hj hp => exact ⟨j, l, m, o, hj, Or.inr hp, rfl⟩
+  | _ => exact absurd rfl hne
+
+theorem code_group_records_exact (s : St) (hr : Reachable s) (hcode : s.cfg = Cfg.code) (j : Nat) (l : Thread)
+    (hj : s.ws[j]? = some l) (hjo : l.jout ≠ none) :
+    l.jrecs.Perm (l.recs ++ l.members.flatMap (·.recs)) ∧ l.gn = l.jrecs.length ∧
+      (l.pub ≠ none → l.arecs = l.jrecs) :=
+  have f := code_flags s hcode
+  have h := group_records_exact s hr f.2.1 f.2.2.1 j l hj hjo
+  ⟨h.2.2.1, h.2.2.2.2.2.1, h.2.1⟩
+
+/-- the group of `exG`: the pooled batch (record 20) stands between the leader's batch and writer 2's -/
+example : ∃ l, exG.ws[0]? = some l ∧ l.batches = [.own, .our, .other 2 [30, 31, 32]] ∧
+    l.jrecs = [10, 11, 20, 30, 31, 32] ∧ l.arecs = l.jrecs ∧ l.gn = 6 ∧ l.gseq = 8 ∧ l.pub = some 13 ∧
+    l.members.map (·.idx) = [1, 2] := by decide
+
+/-- seeded change "the pooled batch is not `Reset()`" (`poolReset = false`): writer 0, a `Put` of record 10,
+writes alone and returns its batch to the pool; then writer 1 (`Write` of 20) leads, merges writer 2 (a `Put`
+of 30) and is handed that batch by the pool: the group journals the stale record 10 and consumes three
+sequence numbers for two records -/
+def m2Init : St :=
+  { ws := [mkW true 1 [10], mkW false 2 [20], mkW true 1 [30]], cfg := { poolReset := false } }
+def m2Trace : List Label :=
+  [.call 0, .lock 0, .flushOk 0 100, .mergeDone 0, .journalOk 0, .apply 0, .publish 0 false, .release 0,
+   .call 1, .call 2, .lock 1, .flushOk 1 100, .recvAccept 2 1 (some 0), .reply 2 1, .mergeDone 1, .journalOk 1,
+   .apply 1, .publish 1 false, .ack 2 1, .release 1]
+def m2End : St := (run m2Init m2Trace).getD m2Init
+
+theorem m2_reachable : Reachable m2End := by
+  refine ⟨m2Init, ⟨rfl, rfl, rfl, ?_⟩, run_sound _ _ _ (by decide : run m2Init m2Trace = some m2End)⟩
+  intro w hw
+  simp only [m2Init, List.mem_cons, List.not_mem_nil, or_false] at hw
+  rcases hw with rfl | rfl | rfl <;> simp [Thread.fresh, mkW]
+
+theorem seeded_stale_pooled_batch : Reachable m2End ∧ m2End.cfg = { poolReset := false } ∧
+    ∃ l, m2End.ws[1]? = some l ∧ l.jout = some true ∧ l.recs = [20] ∧ l.members.map (·.recs) = [[30]] ∧
+      l.jrecs = [20, 10, 30] ∧ l.gn = 3 := ⟨m2_reachable, by decide, by decide⟩
+
+/-! ## 10. the caller's batch (C20) -/
+
+/-- No step modifies the contents of a caller's batch; so it always holds the records the caller put in.
+Merged `Put` records go to the pooled batch only, and that batch holds nothing else: for a leader past
+`db.flush`, `pb` is its own record (if it is a `Put`: then `batch == ourBatch`) followed by the merged `Put`s
+— nothing stale, because it is reset after `Get()`. -/
+theorem caller_batch_untouched :
+    (∀ (s t : St), Step s t → s.cfg.appendOur = true → ∀ (i : Nat) (w w' : Thread), s.ws[i]? = some w →
+        t.ws[i]? = some w' → w'.cb = w.cb) ∧
+    (∀ (s : St), Reachable s → s.cfg.appendOur = true → ∀ (i : Nat) (w : Thread), s.ws[i]? = some w →
+        w.cb = w.recs) ∧
+    (∀ (s : St), Reachable s → s.cfg.appendOur = true → s.cfg.poolReset = true → ∀ (j : Nat) (l : Thread),
+        s.ws[j]? = some l → l.batches ≠ [] →
+        l.pb = (if l.put then l.recs else []) ++ (l.members.flatMap fun e => if e.put then e.recs else [])) := by
+  refine ⟨?_, ?_, ?_⟩
+  · intro s t h hc i w w' hi hi'
+    have hcb : ∀ (l x : Thread) (k : Nat) (st : List Rec), (l.accept s.cfg k x st).cb = l.cb := by
+      intro l x k st
+      show l.acceptCb s.cfg x = l.cb
+      simp [Thread.acceptCb, hc]
+    revert hi'
+    cases h <;> (simp only [set2, List.getElem?_set]) <;>
+      grind [Thread.setPc, Thread.asLeader, Thread.unlock, Thread.grouped, Thread.journalled]
+  · intro s hr hc i w hi
+    have hG := (reachable_ginv s hr).gloc i w hi
+    cases hpc : w.pc with
+    | lead ph m o =>
+      cases ph <;> simp only [GLoc, hpc, Unled, FlushShape, Shape] at hG <;> grind
+    | _ => simp only [GLoc, hpc, Unled, Shape] at hG <;> grind
+  · intro s hr hc hp j l hj hb
+    have hG := (reachable_ginv s hr).gloc j l hj
+    have hS : Shape s.cfg l := by
+      cases hpc : l.pc with
+      | lead ph m o =>
+        cases ph <;> simp only [GLoc, hpc, Unled, FlushShape] at hG <;> grind
+      | _ => simp only [GLoc, hpc, Unled] at hG <;> grind
+    exact hS.2.2.1 hp hc
+
+/-- in `exG` the caller's batches are what they were, the pooled batch got the `Put` -/
+example : exG.ws.map (·.cb) = [[10, 11], [20], [30, 31, 32]] ∧ (exG.ws.map (·.pb))[0]? = some [20] := by decide
+
+/-- seeded change "the merged record is appended to the caller's batch" (`appendOur = false`): writer 0
+(`Write` of 20) merges writer 1 (a `Put` of 30); one step later its caller's batch holds 20 and 30 -/
+def m3Init : St := { ws := [mkW false 2 [20], mkW true 1 [30]], cfg := { appendOur := false } }
+def m3Trace : List Label := [.call 0, .call 1, .lock 0, .flushOk 0 100, .recvAccept 1 0]
+def m3End : St := (run m3Init m3Trace).getD m3Init
+
+theorem m3_reachable : Reachable m3End := by
+  refine ⟨m3Init, ⟨rfl, rfl, rfl, ?_⟩, run_sound _ _ _ (by decide : run m3Init m3Trace = some m3End)⟩
+  intro w hw
+  simp only [m3Init, List.mem_cons, List.not_mem_nil, or_false] at hw
+  rcases hw with rfl | rfl <;> simp [Thread.fresh, mkW]
+
+theorem seeded_caller_batch_modified : Reachable m3End ∧ m3End.cfg = { appendOur := false } ∧
+    ∃ l, m3End.ws[0]? = some l ∧ l.put = false ∧ l.recs = [20] ∧ l.cb = [20, 30] ∧ l.pb = [] :=
+  ⟨m3_reachable, by decide, by decide⟩
+
+/-! ## 11. the answers of `unlockWrite`, whatever the leader's outcome (C09) -/
+
+/-- When the leader `j` enters `unlockWrite(o, m, r)` — after a failed `flush`, a failed journal write, a
+failed `rotateMem` or a success — `m` is the number of messages it accepted, every writer waiting for an ack
+was merged by `j`, if `o` a writer waits on `writeMergedC`, and the leader's own steps lead to a state where
+each of those writers has returned `r`, the leader has returned `r`, and the lock is free (`o = false`) or
+held by the overflowed writer, which starts `writeLocked` (`o = true`).  With `terminates`/`no_stuck_state`
+every run does this. -/
+theorem overflow_answered (s : St) (hr : Reachable s) (j : Nat) (l : Thread) (k m : Nat) (r : Res) (o : Bool)
+    (hj : s.ws[j]? = some l) (hp : l.pc = .lead (.acking k r) m o) :
+    l.members.length = m ∧
+    (∀ (i : Nat) (w : Thread), s.ws[i]? = some w → w.pc = .waitAck → w.acc = some j) ∧
+    (o = true → ∃ (i : Nat) (w : Thread), s.ws[i]? = some w ∧ w.pc = .waitMerged ∧ w.kind = .writer) ∧
+    ∃ t, Steps s t ∧ (∃ l', t.ws[j]? = some l' ∧ l'.pc = .returned r) ∧
+      (∀ (i : Nat) (w : Thread), s.ws[i]? = some w → w.pc = .waitAck → t.ws[i]? = some (w.setPc (.returned r))) ∧
+      (o = false → t.token = false) ∧
+      (o = true → ∃ (i : Nat) (w : Thread), s.ws[i]? = some w ∧ w.pc = .waitMerged ∧
+          t.ws[i]? = some w.asLeader ∧ t.cur = some i ∧ t.token = true) := by
+  have c := reachable_cinv s hr
+  have p := reachable_pinv s hr
+  have g := reachable_ginv s hr
+  refine ⟨members_of_acking _ l (g.gloc j l hj) k m r o hp, ?_, ?_, unlock_run k s hr j l r m o hj hp⟩
+  · intro i w hi hw
+    have hcur := p.holder_cur j l hj (by simp [hp, holds])
+    have := (p.wa_cur i w hi hw).1
+    rw [this, hcur]
+  · intro ho
+    subst ho
+    obtain ⟨i, w, hi, hw⟩ := exists_wm s c j l hj (by cases k <;> simp [hp, pendReply])
+    have := p.loc i w hi
+    simp only [Loc, hw] at this
+    exact ⟨i, w, hi, hw, this.1⟩
+
+/-- `exMid`: the journal write failed; writer 1 gets the error, writer 2 the lock -/
+example : ∃ t, Steps exMid t ∧ t.ws.map (·.pc) = [.returned .err, .returned .err, .lead .flush 0 false] :=
+  ⟨_, run_sound exMid _ [.ack 1 0, .handoff 2 0] rfl, by decide⟩
+
+/-- seeded change "`unlockWrite` does not answer the overflowed writer when the leader failed"
+(`handoffOnErr = false`, `if overflow && err == nil`): the run of `exTraceA`, the ack, and the release of the
+lock end in a state where writer 2 waits on `writeMergedC`, the lock is free, and no step is enabled -/
+def m4Init : St := { ex0 with cfg := { handoffOnErr := false } }
+def m4End : St := (run m4Init (exTraceA ++ [.ack 1 0, .releaseLost 0])).getD m4Init
+
+theorem seeded_overflow_not_answered : InitAny m4Init ∧ m4Init.cfg = { handoffOnErr := false } ∧
+    Steps m4Init m4End ∧ m4End.ws.map (·.pc) = [.returned .err, .returned .err, .waitMerged] ∧
+    m4End.token = false ∧ ¬ ∃ u, Step m4End u := by
+  refine ⟨⟨rfl, rfl, ?_⟩, rfl,
+    run_sound _ _ _ (by decide : run m4Init (exTraceA ++ [.ack 1 0, .releaseLost 0]) = some m4End),
+    by decide, by decide, ?_⟩
+  · intro w hw
+    simp only [m4Init, ex0, List.mem_cons, List.not_mem_nil, or_false] at hw
+    rcases hw with rfl | rfl | rfl <;> simp [Thread.fresh, mkW]
+  · apply stuck_of_waiting
+    have hall : m4End.ws.all (fun w => match w.pc with
+        | .returned _ => true | .waitMerged => true | _ => false) = true := by decide
+    intro i w hi
+    have := List.all_eq_true.mp hall w (List.mem_of_getElem? hi)
+    cases hpc : w.pc <;> simp [hpc] at this ⊢
+
+/-! ## 12. the merge limit -/
+
+/-- For a leader past `db.flush`: the sizes of the accepted messages plus the remaining `mergeLimit` are the
+limit the code computed from `batch.internalLen` and `mdbFree`; so the merged size never exceeds it, nor
+`mdbFree - batch.internalLen` (the group fits into the memdb that `flush` made room in), nor 128 KiB for a
+batch of at most 128 KiB, and a larger batch plus its merged writers stay within 1 MiB; a leader with merging
+disabled accepts nothing. -/
+theorem merge_within_limit (s : St) (hr : Reachable s) (j : Nat) (l : Thread) (hj : s.ws[j]? = some l)
+    (hb : l.batches ≠ []) :
+    l.glimit + (l.members.map (·.size)).sum = mergeLimitOf l.size l.gfree ∧
+    (l.members.map (·.size)).sum ≤ mergeLimitOf l.size l.gfree ∧
+    mergeLimitOf l.size l.gfree ≤ l.gfree - l.size ∧
+    (l.size ≤ Gen.wpMergeBigBatch → mergeLimitOf l.size l.gfree ≤ Gen.wpMergeLimitSmall) ∧
+    (Gen.wpMergeBigBatch < l.size → mergeLimitOf l.size l.gfree ≤ Gen.wpMergeLimitBig - l.size) ∧
+    (l.merge = false → l.members = []) := by
+  have hG := (reachable_ginv s hr).gloc j l hj
+  have hS : Shape s.cfg l := by
+    cases hpc : l.pc with
+    | lead ph m o =>
+      cases ph <;> simp only [GLoc, hpc, Unled, FlushShape] at hG <;> grind
+    | _ => simp only [GLoc, hpc, Unled] at hG <;> grind
+  have h5 : l.glimit + sizes l.members = mergeLimitOf l.size l.gfree := hS.2.2.2.2.1
+  refine ⟨h5, ?_, ?_, ?_, ?_, hS.2.2.2.2.2.2.2⟩
+  · have : sizes l.members = (l.members.map (·.size)).sum := rfl
+    omega
+  · unfold mergeLimitOf; simp only; (repeat' split) <;> omega
+  · intro h; unfold mergeLimitOf; simp only; (repeat' split) <;> omega
+  · intro h; unfold mergeLimitOf; simp only; (repeat' split) <;> omega
+
+/-- the constants of the source: 128 KiB and 1 MiB -/
+example : Gen.wpMergeBigBatch = 128 * 1024 ∧ Gen.wpMergeLimitSmall = 128 * 1024 ∧
+    Gen.wpMergeLimitBig = 1024 * 1024 := by decide
+
+/-- in `exMid` the limit was `5 - 2 = 3`, one unit used by writer 1, and writer 2 (size 5) did not fit -/
+example : ∃ l, exMid.ws[0]? = some l ∧ mergeLimitOf l.size l.gfree = 3 ∧ l.glimit = 2 ∧
+    l.members.map (·.size) = [1] := by decide
+
+/-! ## 13. the tie: the trace validator (`wp …` lines of `gldriver`) -/
+
+/-- After any trace of hook events the validator accepts (from its initial state, configuration `{}`), every
+candidate model state is reachable: the log of the real code is a run of the model, so everything above
+holds of it. -/
+theorem validator_sound (es : List Driver.Wp.Ev) (v' : Driver.Wp.WpState)
+    (h : Driver.Wp.runEvents Driver.Wp.initWp es = .ok v') : ∀ m ∈ v'.ms, Reachable m ∧ m.cfg = {} := by
+  intro m hm
+  have hr := Driver.Wp.runEvents_reach es _ v' Driver.Wp.initWp_reach h m hm
+  exact ⟨hr, Driver.Wp.runEvents_cfg es _ v' Driver.Wp.initWp_cfg h m hm⟩
+
+/-- An accepted `wp group seq n nb sync` line (all calls having been announced with their data) means that
+the record count, batch count and sync flag the real code reported at its `w.group` hook are the model's
+`gn`, `batches.length`, `gsync` — the quantities of `group_records_exact` and `group_sync`. -/
+theorem validator_group_checked (v v' : Driver.Wp.WpState) (seq n nb : Nat) (sy : Bool) (hx : v.exact = true)
+    (h : Driver.Wp.legalStep v (.group seq n nb (some sy)) = .ok v') :
+    ∀ m' ∈ v'.ms, ∃ l, m'.ws[v.lead]? = some l ∧ l.gn = n ∧ l.batches.length = nb ∧ l.gsync = sy :=
+  Driver.Wp.group_checked v v' seq n nb sy hx h
+
 def theorems : List String :=
   ["GoLevel.C10.mutex", "GoLevel.C10.group_result", "GoLevel.C10.leader_result",
    "GoLevel.C10.exactly_one_result", "GoLevel.C10.handoff_exact", "GoLevel.C10.no_stuck_state",
-   "GoLevel.C10.terminates"]
+   "GoLevel.C10.terminates", "GoLevel.C10.code_cfg", "GoLevel.C10.code_merge_limit_shape",
+   "GoLevel.C10.group_sync", "GoLevel.C10.code_group_sync", "GoLevel.C10.seeded_sync_dropped",
+   "GoLevel.C10.group_records_exact", "GoLevel.C10.seq_consumed", "GoLevel.C10.code_group_records_exact",
+   "GoLevel.C10.seeded_stale_pooled_batch", "GoLevel.C10.caller_batch_untouched",
+   "GoLevel.C10.seeded_caller_batch_modified", "GoLevel.C10.overflow_answered",
+   "GoLevel.C10.seeded_overflow_not_answered", "GoLevel.C10.merge_within_limit",
+   "GoLevel.C10.validator_sound", "GoLevel.C10.validator_group_checked"]
 
 end GoLevel.C10
